@@ -21,7 +21,8 @@ obligations; `U` is the regenerated `UNSAFE_FOR_*` byte set):
   ASCII, kept escapes and raw non-ASCII characters all interrupt a run) are cut into
   well-formed UTF-8 sequences — emitted as the character — and ill-formed bytes — emitted
   as upper-case escapes again;
-* `C1_CONTROL_RE.sub`: a decoded C1 control (U+0080–U+009F) is re-escaped;
+* `NON_PRINTABLE_RE.sub`: a decoded C1 control (U+0080–U+009F) or whitespace character beyond
+  ASCII (U+00A0, U+1680, U+2000–U+200A, U+2028, U+2029, U+202F, U+205F, U+3000) is re-escaped;
 * `normalize_space`: a space (raw or decoded) becomes `%20`.
 
 UTF-8 decoding is Lean core's `ByteArray.utf8DecodeChar?` (strict: no overlongs, no
@@ -114,6 +115,16 @@ inductive Item where
 
 def isC1 (c : Char) : Bool := 0x80 ≤ c.toNat && c.toNat ≤ 0x9f
 
+/-- the whitespace characters beyond ASCII of `NON_PRINTABLE_RE` (what `str.strip` removes
+besides ASCII whitespace and C0/C1 controls) -/
+def uSpaces : List Nat :=
+  [0xa0, 0x1680, 0x2000, 0x2001, 0x2002, 0x2003, 0x2004, 0x2005, 0x2006, 0x2007, 0x2008, 0x2009,
+   0x200a, 0x2028, 0x2029, 0x202f, 0x205f, 0x3000]
+
+/-- `NON_PRINTABLE_RE`: a decoded character that is escaped again (C1 control or whitespace
+beyond ASCII) -/
+def staysEscaped (c : Char) : Bool := isC1 c || uSpaces.contains c.toNat
+
 /-- `_unquote_impl` on one token (+ `normalize_space` for the characters it produces) -/
 def itemOf (U : List UInt8) : Tok → Item
   | .raw c => if c = ' ' then .lit (.esc '2' '0') else .lit (.raw c)
@@ -125,11 +136,11 @@ def itemOf (U : List UInt8) : Tok → Item
       (if b = 0x20 then .lit (.esc '2' '0') else .lit (.raw (Char.ofNat b.toNat)))
     else .byte b
 
-/-- output of a run of decoded bytes: well-formed sequences as characters (C1 controls
-re-escaped), ill-formed bytes re-escaped -/
+/-- output of a run of decoded bytes: well-formed sequences as characters (C1 controls and
+whitespace beyond ASCII re-escaped), ill-formed bytes re-escaped -/
 def flush (bs : List UInt8) : List Tok :=
   (segment bs).flatMap fun
-    | .inl c => if isC1 c then (utf8 c).map escOfByte else [.raw c]
+    | .inl c => if staysEscaped c then (utf8 c).map escOfByte else [.raw c]
     | .inr b => [escOfByte b]
 
 /-- `acc`: the pending run of decoded bytes (in order) -/
